@@ -13,6 +13,7 @@
 mod alloc;
 mod conn;
 mod gen;
+mod logsim;
 mod pkt;
 mod pool;
 mod props;
@@ -112,6 +113,7 @@ fn warm_up() {
 
 fn main() {
     runner::install_panic_hook();
+    logsim::install();
     warm_up();
     let args: Vec<String> = std::env::args().collect();
     let cmd = args.get(1).map(|s| s.as_str()).unwrap_or("");
